@@ -274,7 +274,6 @@ def run():
     impl2 = implrun.run_cases('props.c20', 'impl_case', npts_cases, tmo=5.0)
     mod2 = core.model_parallel(['pg %d %d %d' % (c[5], min(c[1], c[4]), min(c[3], c[4])) for c in npts_cases])
     built = 0
-    broken_without_input = False
     for c, r, m in zip(npts_cases, impl2, mod2):
         npts = list(c[1:5])
         rs = 'ok %d %d' % (r[1], r[2]) if r[0] == 'ok' else ('err' if r[0] == 'exc' and r[1] == 'RuntimeError' else repr(r))
@@ -285,32 +284,12 @@ def run():
                                                  and r[1] <= min(c[1], c[4]) and r[2] <= min(c[3], c[4]))
             chk.violation('process_grid:npts-wrapper', 'npts=%r mpi=%d: impl %s model %s' % (npts, c[5], rs, m),
                           {'kind': 'impl', 'case': list(c), 'observed': rs, 'model': m}, no_input=valid)
-            broken_without_input = broken_without_input or valid
         elif r[0] == 'ok' and r[1] * r[2] <= 12 and built < (60 if chk.tier == 'quick' else 400):
             built += 1
             ok, why = check_layouts(chk, npts, r[1], r[2])
             if not ok:
                 chk.violation('process_grid:layouts-not-buildable', 'npts=%r grid=(%d,%d): %s' % (npts, r[1], r[2], why),
                               {'kind': 'impl', 'case': list(c), 'grid': [r[1], r[2]], 'why': why})
-    if broken_without_input:
-        # the correspondence of the wrapper broke on inputs where the property itself still holds: look for an input on which
-        # it fails (small grids, every process count up to 16)
-        box2 = [('npts', a, 8, b, v, p) for a in range(1, 7) for b in range(1, 7) for v in range(1, 7) for p in range(1, 17)]
-        found = 0
-        for c2, r2 in zip(box2, implrun.run_cases('props.c20', 'impl_case', box2, tmo=5.0)):
-            m1, m2 = min(c2[1], c2[4]), min(c2[3], c2[4])
-            ex = oracle_exists(m1, m2, c2[5])
-            bad = None
-            if r2[0] == 'ok' and not (ex and r2[1] * r2[2] == c2[5] and 1 <= r2[1] <= m1 and 1 <= r2[2] <= m2):
-                bad = 'returned grid (%d,%d) is not a valid factorisation (bounds %d, %d)' % (r2[1], r2[2], m1, m2)
-            elif r2[0] == 'exc' and r2[1] == 'RuntimeError' and ex:
-                bad = 'error raised although a valid factorisation exists'
-            elif r2[0] not in ('ok', 'exc'):
-                bad = 'outcome %r' % (r2,)
-            if bad and found < 3:
-                found += 1
-                chk.violation('process_grid:npts-wrapper:' + bad.split(' ')[0], 'npts=%r mpi=%d: %s' % (list(c2[1:5]), c2[5], bad),
-                              {'kind': 'impl', 'case': list(c2), 'observed': list(r2)})
     # cross-check of the extraction: a sample re-evaluated inside Coq with PrimFloat
     rng = random.Random(chk.seed + 1)
     samp = rng.sample(range(len(cases)), 200 if chk.tier == 'quick' else 1000)
